@@ -198,13 +198,27 @@ fn conv_raw_to_proto_large(src: &mut Src) -> Result<(String, usize), String> {
         let insts = (0..ni).map(|j| rawlib::RInst { name: format!("i{}", j), target: src.index(base + k), loc: (src.signed(500), src.signed(500)), o: crate::refmodel::geom::Orient::from_index(src.index(8)), none_angle: src.bool() }).filter(|i| m.cells[i.target].has_layout).collect();
         m.cells.push(rawlib::RCell { name: format!("big{}", k), has_layout: true, shapes, insts, annotations: vec![], abs: None });
     }
-    let mut extra: Vec<usize> = (base..base + n).collect();
+    // one cell drawn on two dozen layer / purpose pairs (nothing about a conversion may depend on how many there are)
+    let first_new = m.layers.len();
+    let npairs = src.usize_in(17, 40);
+    for j in 0..npairs {
+        m.layers.push(rawlib::RLayer { num: 200 + (j / 2) as i16 * if j % 4 == 3 { -1 } else { 1 }, name: None, purposes: vec![((j % 2) as i16 * 7, if j % 2 == 0 { rawlib::RPurpose::Drawing } else { rawlib::RPurpose::Pin })] });
+    }
+    // (two consecutive entries share a layer number but are separate Layer objects only if the numbers differ: keep them distinct)
+    for (j, l) in m.layers[first_new..].iter_mut().enumerate() {
+        l.num = 200 + j as i16;
+    }
+    let mut order: Vec<usize> = (0..npairs).collect();
+    src.shuffle(&mut order);
+    let shapes: Vec<rawlib::RShape> = order.iter().map(|j| rawlib::RShape { layer: first_new + j, purpose: 0, geom: rawlib::RGeom::Rect((*j as i64, 0), (*j as i64 + 5, 7)), net: None }).collect();
+    m.cells.push(rawlib::RCell { name: "manylayers".into(), has_layout: true, shapes, insts: vec![], annotations: vec![], abs: None });
+    let mut extra: Vec<usize> = (base..base + n + 1).collect();
     src.shuffle(&mut extra);
     m.listing.extend(extra);
     let b = rawlib::build(&m);
     let t = match b.lib.to_proto() {
         // the order of the cells, and what each holds
-        Ok(p) => p.cells.iter().map(|c| format!("{} {}\n", c.name, c.layout.as_ref().map(|l| l.shapes.iter().map(|s| s.rectangles.len() + s.polygons.len() + s.paths.len()).sum::<usize>() * 1000 + l.instances.len()).unwrap_or(0))).collect::<String>(),
+        Ok(p) => p.cells.iter().map(|c| format!("{} {} {:?}\n", c.name, c.layout.as_ref().map(|l| l.shapes.iter().map(|s| s.rectangles.len() + s.polygons.len() + s.paths.len()).sum::<usize>() * 1000 + l.instances.len()).unwrap_or(0), c.layout.as_ref().map(|l| l.shapes.iter().map(|s| s.layer.as_ref().map(|y| (y.number, y.purpose))).collect::<Vec<_>>()).unwrap_or_default())).collect::<String>(),
         Err(_) => "ERR export".to_string(),
     };
     Ok((t, n))
@@ -246,6 +260,22 @@ fn conv_lef_raw_lef(src: &mut Src) -> Result<(String, usize), String> {
             }
         }
         m.obs.iter_mut().for_each(keep);
+    }
+    // a stacked pin (a power rail): the very same geometries drawn on two or three layers
+    for m in lib.macros.iter_mut() {
+        for p in m.pins.iter_mut() {
+            for q in p.ports.iter_mut() {
+                if !q.layers.is_empty() && src.prob(1, 3) {
+                    let mut twin = q.layers[src.index(q.layers.len())].clone();
+                    let others: Vec<&str> = ["met1", "met2", "met3", "via1", "li1"].iter().cloned().filter(|n| !q.layers.iter().any(|l| l.layer_name == *n)).collect();
+                    if let Some(n) = others.first() {
+                        twin.layer_name = n.to_string();
+                        let at = src.index(q.layers.len() + 1);
+                        q.layers.insert(at, twin);
+                    }
+                }
+            }
+        }
     }
     let keys = lib.macros.iter().map(|m| {
         let mut obs: Vec<&String> = m.obs.iter().map(|l| &l.layer_name).collect();
